@@ -41,7 +41,9 @@ def _plans(tier):
                 ("uni", lc.plan(1, [1], UNI, "dep", [98, 99], empty=False), 4, 1),
                 ("stub", lc.plan(1, [], [], "none", [105]), 2, 1),
                 # one heartbeat prunes a buried channel and a stale stub together, in both id orders
-                ("mixed", lc.plan(2, [1, 2], ["X"], "none", [106], empty=False), 2, 1)]
+                ("mixed", lc.plan(2, [1, 2], ["X"], "none", [106], empty=False), 2, 1),
+                # crash points inside new / setup / forget requests (plain store)
+                ("crash", lc.plan(1, [1], ["X"], "none", [106], empty=False, crash=True), 2, 1)]
     return [("close", lc.plan(2, [1], FUK, "none", [98, 99], empty=False), 3, 1),
             ("close-deep", lc.plan(1, [1], FUK, "dep", [98]), 3, 2),
             ("uni", lc.plan(1, [1], ["F", "U", "V", "S", "H", "L"], "dep", [98, 100]), 4, 1),
@@ -49,18 +51,22 @@ def _plans(tier):
             ("two", lc.plan(2, [1, 2], ["F", "M"], "none", [98, 99], empty=False), 4, 1),
             ("stub", lc.plan(2, [], [], "none", [105]), 2, 1),
             ("stub-deep", lc.plan(1, [], [], "none", [105]), 3, 2),
-            ("mixed", lc.plan(2, [1, 2], ["F", "M"], "dep", [106], empty=False), 2, 1)]
+            ("mixed", lc.plan(2, [1, 2], ["F", "M"], "dep", [106], empty=False), 2, 1),
+            ("crash", lc.plan(1, [1], ["F", "M"], "dep", [98, 106], empty=False, crash=True), 2, 1),
+            ("crash-two", lc.plan(2, [1], ["X"], "none", [106], empty=False, crash=True), 1, 1)]
 
 
 def _model_consts(tier):
     quick = tier == "quick"
     return {"D": 3, "S": 3, "W": 4, "MaxD": 2, "Cd": [1],
             "Kinds": ["F", "X", "M", "U", "S", "H", "L"] if quick else ALL,
-            "Pairs": "dep", "BurySizes": [2], "Rev": bool(lc.MON_SWITCHES["backwardInReverse"]),
+            "Pairs": "dep", "BurySizes": [2], "Rev": bool(lc.MON_SWITCHES["backwardInReverse"]), "Crash": False,
             "MaxH": 6 if quick else 9}
 
 
-TEXT = {"C15a": "a ready channel disappeared while the reference says it must be kept",
+TEXT = {"C15c": "a channel appeared with the id (or a lower id) of a channel the signer had forgotten after an "
+                "interrupted, never answered forget request",
+        "C15a": "a ready channel disappeared while the reference says it must be kept",
         "C15b": "a channel appeared with an id at or below a forgotten one",
         "C15r": "a signer restored from the store does not have the running signer's channels"}
 
@@ -68,7 +74,7 @@ TEXT = {"C15a": "a ready channel disappeared while the reference says it must be
 def _violation(inv, reqs, where, plan, extra=None, detail=None, msg=""):
     key = lc.classify(inv, reqs, detail)
     what = ("%s%s on the real implementation (%s): %s" % (
-        TEXT[inv], (" [%s %s]" % (detail, msg)) if detail else "",
+        TEXT[inv], (" [%s %s]" % (detail or "", msg)) if (detail or msg) else "",
         where, " ; ".join(lc.req_str(r) for r in reqs)))
     rp = {"kind": "lifecycle-seq", "plan": plan, "requests": reqs, "invariant": inv, "expect": key}
     if extra:
@@ -131,13 +137,18 @@ def run(pid, tier):
         ex = lc.explore(binpath, name, pl, maxshort, maxbury, threads=8 if quick else 12,
                         max_states=25000 if quick else 120000)
         truncated += [name] if ex["truncated"] else []
-        r = lc.impl_tlc(ex)
+        # one monitor at a time where several are expected to speak (TLC stops at the first violated invariant)
+        runs = [lc.impl_tlc(ex, invariants=(i,), workers=1) for i in ("C15a", "C15b", "C15c", "C15r")] if pl.get("crash") \
+            else [lc.impl_tlc(ex)]
+        r = runs[0]
+        r["wall_s"] = sum(x["wall_s"] for x in runs)
+        all_violated = [i for x in runs for i in x["violated"]]
         rep = r["report"]
         if not rep["root_ok"]:
             raise vlib.ToolError("lifecycle harness: initial state is not the specification's initial state")
         leg = "B_impl_" + name
         cov["legs"][leg] = {
-            "plan": {k: pl[k] for k in ("maxd", "cd", "kinds", "pairs", "bury", "mode", "empty")},
+            "plan": {k: pl[k] for k in ("maxd", "cd", "kinds", "pairs", "bury", "mode", "empty", "crash")},
             "maxshort": maxshort, "maxbury": maxbury, "requests_in_alphabet": len(ex["cases"]["requests"]),
             "impl_states": rep["nodes"], "impl_edges": rep["edges"], "refused_edges": ex["stats"]["refused"],
             "aborts": rep["aborts"], "spec_divergences": rep["n_divergences"],
@@ -147,7 +158,7 @@ def run(pid, tier):
             "restart_judged_states": rep["nodes"], "restart_bad_states": rep["restart_bad_states"],
             "restore_fails_states": rep["restore_fails_states"], "mixed_prune_edges": rep["mixed_prune_edges"],
             "mixed_prune_stub_above_edges": rep["mixed_prune_stub_above_edges"],
-            "product_states": r["distinct"], "product_transitions": r["states"], "violated": r["violated"],
+            "product_states": r["distinct"], "product_transitions": r["states"], "violated": all_violated,
             "wall_s": round(r["wall_s"] + ex["wall_s"], 1)}
         tot_nodes += rep["nodes"]
         tot_edges += rep["edges"]
@@ -160,13 +171,16 @@ def run(pid, tier):
             divergences.append({"run": leg, "path": [lc.req_str(ex["cases"]["requests"][i - 1]) for i in dv["path"]],
                                 "req": lc.req_str(dv["req"]), "rc": dv["rc"], "expected_rc": dv["expected_rc"],
                                 "post": dv["post"], "expected": dv["expected"], "msg": det.get("msg", "")})
-        if r["violated"]:
-            reqs = lc.cex_requests(r["trace"])
-            for inv in r["violated"]:
+        for rr in runs:
+            reqs = lc.cex_requests(rr["trace"]) if rr["violated"] else []
+            for inv in rr["violated"]:
                 detail, msg = None, ""
                 if inv == "C15r":
-                    row = ex["rows"][lc.cex_state(r["trace"])["node"]]
+                    row = ex["rows"][lc.cex_state(rr["trace"])["node"]]
                     detail, msg = lc.restart_detail(row["pre"], row["rs"]), row["rs"].get("msg", "")
+                elif reqs and reqs[-1]["op"].endswith("Crash"):
+                    msg = ex["details"].get((lc.cex_final(rr["trace"])["last"]["from"],
+                                             lc.cex_final(rr["trace"])["last"]["ri"]), {}).get("msg", "")
                 violations.append(_violation(inv, reqs, leg, pl, detail=detail, msg=msg))
         if not samples:
             for row in ex["rows"]:
